@@ -401,11 +401,13 @@ func (run *Run) RaceStep(emit func(lib.Finding)) {
 	if gs, err := os.ReadFile(filepath.Join(run.Repo, "go.sum")); err == nil {
 		_ = os.WriteFile(filepath.Join(dir, "go.sum"), gs, 0o644)
 	}
-	rounds := "2"
+	rounds := "6"
 	if run.Tier == "thorough" {
-		rounds = "12"
+		rounds = "60"
 	}
-	cmd := exec.Command("go", "test", "-race", "-count=1", "-v", "-run", "^TestRace", "./reuse")
+	// checkptr (switched on by -race) stops the process at the first unsafe pointer computation of alt's
+	// field accessors (alt.valInt …): off, so that the race detector gets to see the run
+	cmd := exec.Command("go", "test", "-race", "-gcflags=all=-d=checkptr=0", "-count=1", "-v", "-run", "^TestRace", "./reuse")
 	cmd.Dir = dir
 	cmd.Env = append(os.Environ(), "GOFLAGS=-mod=mod", "GOPROXY=off", "GOSUMDB=off", "GOTOOLCHAIN=local", "CGO_ENABLED=1",
 		"GORACE=halt_on_error=0", fmt.Sprintf("VERIF_RACE_SEED=%d", run.Seed), "VERIF_RACE_ROUNDS="+rounds)
